@@ -297,6 +297,16 @@ def weights_rules(chk, ctx):
                            rel=REL, node=h)
             adds = [(t, s) for t, s in it.substores if isinstance(t.value, ast.Name) and t.value.id == "weights"
                     and not s.bottom]
+            # which weight is added: the AugAssign statements of the handler on `weights[...]`
+            added = [a.value.id for a in ast.walk(h) if isinstance(a, ast.AugAssign) and isinstance(a.target, ast.Subscript)
+                     and isinstance(a.target.value, ast.Name) and a.target.value.id == "weights" and isinstance(a.value, ast.Name)]
+            want_w = {"Forward": "write_weight", "Copy": "read_weight", "Move": "read_weight"}.get(act)
+            if want_w and (nadd is None or nadd >= 1) and adds:
+                chk.decide("C14.WEIGHTS", cons + "/kind", True if want_w in added else False,
+                           f"{act} handler adds {added}; every {'load' if act != 'Forward' else 'write'} of a position must add {want_w}",
+                           rel=REL, node=h)
+            elif want_w and (nadd is None or nadd >= 1) and not adds and act == "Move":
+                chk.decide("C14.WEIGHTS", cons + "/kind", False, "Move handler adds no weight at all", rel=REL, node=h)
             if nadd is not None:
                 # weight additions that are not the delete weight
                 main = [(t, s) for t, s in adds]
@@ -330,6 +340,42 @@ def weights_rules(chk, ctx):
                    f"dry run: {CLS}({', '.join(args)}, {kw})", rel=REL, node=c, nontrivial=False)
 
 
+def clamp_rule(chk, ctx):
+    """the unit counts may only be clamped to the number of positions that can ever be used (max_n - 1):
+    a tighter clamp labels fewer positions RAM than declared and possible, so DISK traffic is not minimal"""
+    from ..gram import lin_of
+    repo = ctx.repo
+    for q, fn in (("allocate_snapshots", repo.func(REL, "allocate_snapshots")),
+                  (CLS + ".__init__", repo.method(REL, CLS, "__init__"))):
+        k = 0
+        for a in sorted((x for x in ast.walk(fn) if isinstance(x, ast.Assign)), key=lambda x: x.lineno):
+            t = a.targets[0]
+            if not (isinstance(t, ast.Name) and t.id in ("snapshots_in_ram", "snapshots_on_disk")):
+                continue
+            v = a.value
+            cons = f"multistage.{q}#clamp-{t.id}[{k}]"
+            k += 1
+            if isinstance(v, ast.Call) and getattr(v.func, "id", None) == "min" and len(v.args) == 2:
+                other = [x for x in v.args if not (isinstance(x, ast.Name) and x.id == t.id)]
+                if len(other) == 1:
+                    d = lin_of(other[0])
+                    if d is not None:
+                        dd = d - (Lin.sym("max_n") - ONE)
+                        if dd.is_const() and dd.c >= 0:
+                            chk.decide("C14.BOUND", cons, True, f"{t.id} clamped to {ast.unparse(other[0])}", rel=REL, node=a,
+                                       nontrivial=False)
+                        elif dd.is_const() or all(c < 0 for c in dd.t.values()) and dd.c <= 0:
+                            chk.decide("C14.BOUND", cons, False,
+                                       f"{t.id} is clamped to {ast.unparse(other[0])}, tighter than max_n - 1 by {-dd}: fewer positions "
+                                       "are labelled RAM than declared and usable, so the DISK traffic is not minimal", rel=REL, node=a)
+                        else:
+                            chk.decide("C14.BOUND", cons, None, f"clamp {ast.unparse(v)} not comparable with max_n - 1", rel=REL, node=a)
+                        continue
+            if isinstance(v, ast.Call) and isinstance(v.func, ast.Attribute) and v.func.attr == "count":
+                continue    # the recorded counts of the label tuple
+            chk.decide("C14.BOUND", cons, None, f"unrecognised re-assignment {ast.unparse(a)[:80]}", rel=REL, node=a)
+
+
 def run(chk, ctx):
     chk.describe("C14.NI", "the RAM/disk split influences labels only (non-interference)")
     chk.describe("C14.SLOT", "one storage per stack position, fixed for the whole run")
@@ -349,6 +395,8 @@ def run(chk, ctx):
         if o.rule == "C03.SLICE":
             o.rule = "C14.BOUND"
     chk.describe("C14.BOUND", "at most the declared number of positions is labelled RAM")
+    shared.rule_config(chk, "C14.CONFIG", ctx.repo, classes=[CLS])
+    clamp_rule(chk, ctx)
     topk_rule(chk, ctx)
     weights_rules(chk, ctx)
     chk.note("not decided: the closed arithmetic identity len(storage) == min(ram + disk, n - 1), and minimality of the "
